@@ -91,12 +91,15 @@ fn c10_okf<T, E>(r: Result<T, E>) -> Option<T> {
         }
     }
 }
+// NOTE on `wrapping_*` / masks in the harness code below: every quantity is < 2^17, nothing ever wraps.  Checked
+// operators would each add an overflow check plus a reachability check whose counterexample trace CBMC prints
+// (~4 MB each at the end of a 3-step sequence); kani-driver then needs several GB per harness to parse the output.
 const fn c10_pad(len: usize) -> usize {
-    (len + C10_ALIGN - 1) / C10_ALIGN * C10_ALIGN
+    len.wrapping_add(C10_ALIGN - 1) & !(C10_ALIGN - 1)
 }
 /// reference model of a stored cell's size: header + payload padded to the cell alignment
 const fn c10_total(len: usize) -> usize {
-    CELL_HEADER_SIZE + c10_pad(len)
+    CELL_HEADER_SIZE.wrapping_add(c10_pad(len))
 }
 
 // ---- reference model: the ordered list of cells the page must contain ------------------------------------------
@@ -128,28 +131,28 @@ impl C10Model {
     fn insert(&mut self, i: usize, c: C10Cell) {
         let mut k = self.n;
         while k > i {
-            self.c[k] = self.c[k - 1];
-            k -= 1;
+            self.c[k] = self.c[k.wrapping_sub(1)];
+            k = k.wrapping_sub(1);
         }
         self.c[i] = c;
-        self.n += 1;
-        self.free -= c10_total(c.len) + C10_SLOT;
+        self.n = self.n.wrapping_add(1);
+        self.free = self.free.wrapping_sub(c10_total(c.len).wrapping_add(C10_SLOT));
     }
     fn remove(&mut self, i: usize) -> C10Cell {
         let old = self.c[i];
         let mut k = i;
-        while k + 1 < self.n {
-            self.c[k] = self.c[k + 1];
-            k += 1;
+        while k.wrapping_add(1) < self.n {
+            self.c[k] = self.c[k.wrapping_add(1)];
+            k = k.wrapping_add(1);
         }
-        self.n -= 1;
-        self.free += c10_total(old.len) + C10_SLOT;
+        self.n = self.n.wrapping_sub(1);
+        self.free = self.free.wrapping_add(c10_total(old.len).wrapping_add(C10_SLOT));
         old
     }
     fn replace(&mut self, i: usize, c: C10Cell) -> C10Cell {
         let old = self.c[i];
         self.c[i] = c;
-        self.free = self.free + c10_total(old.len) - c10_total(c.len);
+        self.free = self.free.wrapping_add(c10_total(old.len)).wrapping_sub(c10_total(c.len));
         old
     }
 }
@@ -172,8 +175,8 @@ fn c10_owned_matches(c: &OwnedCell, w: &C10Cell) -> bool {
         && c.left_child() == w.lc
         && !c.is_overflow()
         && d[0] == w.b0
-        && d[w.len / 2] == (if w.len / 2 == 0 { w.b0 } else if w.len / 2 == w.len - 1 { w.b1 } else { w.fill })
-        && d[w.len - 1] == w.b1
+        && (w.len < 3 || d[w.len >> 1] == w.fill)
+        && d[w.len.wrapping_sub(1)] == w.b1
 }
 
 // ---- laws -------------------------------------------------------------------------------------------------------
@@ -242,9 +245,10 @@ fn c10_after(p: &BtreePage, m: &C10Model, l: &mut C10Laws, after_err: bool) {
     let cap = p.capacity();
     let fsp = p.free_space_pointer() as usize;
     let free = p.free_space() as usize;
-    let mut num_slots = n == m.n && cap == C10_CAP && p.data().len() == cap;
+    let amask = C10_ALIGN - 1;
+    let num_slots = n == m.n && cap == C10_CAP && p.data().len() == cap;
     let mut inside = true;
-    let mut aligned = fsp % C10_ALIGN == 0;
+    let mut aligned = fsp & amask == 0;
     let mut disjoint = true;
     let mut fsp_ok = fsp <= cap;
     let mut header = true;
@@ -252,55 +256,58 @@ fn c10_after(p: &BtreePage, m: &C10Model, l: &mut C10Laws, after_err: bool) {
     let mut api = true;
     let mut sum = 0usize;
     let mut off = [0usize; C10_MAXN];
-    let mut tot = [0usize; C10_MAXN];
+    let mut end = [0usize; C10_MAXN];
     if n == m.n {
+        let data = p.data();
+        let slots = p.slot_array();
         let mut k = 0;
         while k < m.n {
             let w = &m.c[k];
-            let o = p.slot_array()[k] as usize;
+            let o = slots[k] as usize;
             let t = c10_total(w.len);
+            let e = o.wrapping_add(t);
             off[k] = o;
-            tot[k] = t;
-            sum += t + C10_SLOT;
-            let in_k = o >= m.n * C10_SLOT && o + t <= cap;
+            end[k] = e;
+            sum = sum.wrapping_add(t).wrapping_add(C10_SLOT);
+            let in_k = o >= m.n << 1 && e <= cap;
             inside &= in_k;
-            aligned &= o % C10_ALIGN == 0 && t % C10_ALIGN == 0;
+            aligned &= o & amask == 0 && t & amask == 0;
             fsp_ok &= fsp <= o;
             if in_k {
                 // raw view: header and payload bytes at the slot's offset
-                let h = CellHeader::from(&p.data()[o..]);
+                let h = CellHeader::from(&data[o..]);
                 let h_ok = h.size() as usize == c10_pad(w.len) && h.len() == w.len && h.left_child() == w.lc && !h.is_overflow();
                 header &= h_ok;
-                let d = &p.data()[o + CELL_HEADER_SIZE..o + CELL_HEADER_SIZE + w.len];
-                payload &= d[0] == w.b0 && d[w.len - 1] == w.b1 && (w.len < 3 || d[w.len / 2] == w.fill);
+                let d = &data[o.wrapping_add(CELL_HEADER_SIZE)..e];
+                payload &= d[0] == w.b0 && d[w.len.wrapping_sub(1)] == w.b1 && (w.len < 3 || d[w.len >> 1] == w.fill);
                 if h_ok {
                     // API view: CellRef
                     let c = p.cell(k);
-                    let e = c.effective_data();
+                    let ed = c.effective_data();
                     api &= c.len() == w.len
-                        && e.len() == w.len
+                        && ed.len() == w.len
                         && c.total_size() == t
-                        && c.storage_size() == t + C10_SLOT
+                        && c.storage_size() == t.wrapping_add(C10_SLOT)
                         && c.left_child() == w.lc
                         && !c.is_overflow()
                         && c.overflow_page().is_none()
-                        && e[0] == w.b0
-                        && e[w.len - 1] == w.b1;
+                        && ed[0] == w.b0
+                        && ed[w.len.wrapping_sub(1)] == w.b1;
                 }
             }
-            k += 1;
+            k = k.wrapping_add(1);
         }
         let mut i = 0;
         while i < m.n {
-            let mut j = i + 1;
+            let mut j = i.wrapping_add(1);
             while j < m.n {
-                disjoint &= off[i] + tot[i] <= off[j] || off[j] + tot[j] <= off[i];
-                j += 1;
+                disjoint &= end[i] <= off[j] || end[j] <= off[i];
+                j = j.wrapping_add(1);
             }
-            i += 1;
+            i = i.wrapping_add(1);
         }
     }
-    let accounting = free + sum == cap && free == m.free;
+    let accounting = free.wrapping_add(sum) == cap && free == m.free;
     l.num_slots &= num_slots;
     l.inside &= inside;
     l.aligned &= aligned;
@@ -319,7 +326,7 @@ fn c10_after(p: &BtreePage, m: &C10Model, l: &mut C10Laws, after_err: bool) {
 fn c10_do_insert<const N: usize>(p: &mut BtreePage, m: &mut C10Model, l: &mut C10Laws, i: usize, v: &C10Cell) {
     let w = C10Cell { len: N, ..*v };
     let cell = c10_mk::<N>(&w);
-    let fits = i <= m.n && c10_pad(N) <= p.max_allowed_payload_size() as usize && c10_total(N) + C10_SLOT <= m.free;
+    let fits = i <= m.n && c10_pad(N) <= p.max_allowed_payload_size() as usize && c10_total(N).wrapping_add(C10_SLOT) <= m.free;
     match c10_okf(p.insert(i, cell)) {
         Some(j) => {
             l.op_result &= fits && j == i;
@@ -354,7 +361,7 @@ fn c10_do_replace<const N: usize>(p: &mut BtreePage, m: &mut C10Model, l: &mut C
     let w = C10Cell { len: N, ..*v };
     let cell = c10_mk::<N>(&w);
     // the new cell fits iff it fits once the old cell's bytes are given back
-    let fits = i < m.n && c10_total(N) <= m.free + c10_total(m.c[i].len);
+    let fits = i < m.n && c10_total(N) <= m.free.wrapping_add(c10_total(m.c[i].len));
     match c10_okf(p.replace(i, cell)) {
         Some(c) => {
             l.op_result &= fits;
@@ -374,7 +381,7 @@ fn c10_do_defrag(p: &mut BtreePage, m: &mut C10Model, l: &mut C10Laws) {
     p.defragment();
     c10_after(p, m, l, false);
     // compact: nothing but the slot array below the free-space pointer is in use
-    l.compact &= p.free_space_pointer() as usize == p.free_space() as usize + p.num_slots() * C10_SLOT;
+    l.compact &= p.free_space_pointer() as usize == (p.free_space() as usize).wrapping_add(p.num_slots() << 1);
 }
 
 /// `drain(..)` as used by Bplustree (split / merge / rebalance): yields every cell in slot order and empties the page
@@ -388,13 +395,13 @@ fn c10_do_drain(p: &mut BtreePage, m: &mut C10Model, l: &mut C10Laws) {
                 Some(c) => ok &= c10_owned_matches(&c, &m.c[k]),
                 None => ok = false,
             }
-            k += 1;
+            k = k.wrapping_add(1);
         }
         ok &= it.next().is_none();
     }
     l.returned &= ok;
     while m.n > 0 {
-        m.remove(m.n - 1);
+        m.remove(m.n.wrapping_sub(1));
     }
     c10_after(p, m, l, false);
 }
@@ -415,7 +422,7 @@ fn c10_branch<F: FnMut(usize)>(sel: u8, hi: usize, mut f: F) {
 /// op-sequence interpreter: each step runs inside the branch of the previous one (no state merging before the end)
 macro_rules! c10_seq {
     ($p:ident $m:ident $l:ident $sel:ident $v:ident ($k:expr); ) => {
-        $l.leaves += 1;
+        $l.leaves = $l.leaves.wrapping_add(1);
     };
     ($p:ident $m:ident $l:ident $sel:ident $v:ident ($k:expr); ins($n:literal) $($rest:tt)*) => {
         c10_branch($sel[$k], $m.n, |j| {
@@ -440,7 +447,7 @@ macro_rules! c10_seq {
     };
     ($p:ident $m:ident $l:ident $sel:ident $v:ident ($k:expr); rem $($rest:tt)*) => {
         if $m.n >= 1 {
-            c10_branch($sel[$k], $m.n - 1, |j| {
+            c10_branch($sel[$k], $m.n.wrapping_sub(1), |j| {
                 c10_do_remove(&mut $p, &mut $m, &mut $l, j);
                 c10_seq!($p $m $l $sel $v ($k + 1); $($rest)*);
             });
@@ -448,7 +455,7 @@ macro_rules! c10_seq {
     };
     ($p:ident $m:ident $l:ident $sel:ident $v:ident ($k:expr); rep($n:literal) $($rest:tt)*) => {
         if $m.n >= 1 {
-            c10_branch($sel[$k], $m.n - 1, |j| {
+            c10_branch($sel[$k], $m.n.wrapping_sub(1), |j| {
                 c10_do_replace::<$n>(&mut $p, &mut $m, &mut $l, j, &$v[$k]);
                 c10_seq!($p $m $l $sel $v ($k + 1); $($rest)*);
             });
@@ -558,7 +565,7 @@ fn c10_with_n_cells<F: FnMut(&mut BtreePage, &mut C10Model, &mut C10Laws)>(mut f
             c10_do_insert::<8>(&mut p, &mut m, &mut l, 1, &v[1]);
         }
         f(&mut p, &mut m, &mut l);
-        l.leaves += 1;
+        l.leaves = l.leaves.wrapping_add(1);
     });
     l.assert_all();
     std::mem::forget(p);
